@@ -61,7 +61,7 @@ class Rig:
             return backends.snapshot_memory(self.server, str(self.base))
         return backends.snapshot_fs(self.base)
 
-    def ev(self, i, e):
+    def ev(self, i, e, advance="default"):
         s = self.sessions[i]
         w = self.world
         settle = True
@@ -104,7 +104,7 @@ class Rig:
                 return None
             s.send(e)
         if settle:
-            w.settle(self.advance)
+            w.settle(self.advance if advance == "default" else advance)
         if s.ctl is not None:
             r = s.ctl.take_replies()
             if r:
